@@ -405,7 +405,7 @@ def hetero_judge(expected_types, expected_ions, custom_models=None):
         params = mol.version.parameters
         got = {}
         for g in conf.groups:
-            if g.atom.type == 'hetatm':
+            if g.atom.type == 'hetatm' or g.atom.res_name.strip() in expected_ions:     # (an ion is an ion under either record name)
                 got[(g.atom.res_name.strip(), g.atom.name)] = g
         for (res, name), typ in expected_types.items():
             g = got.get((res, name))
@@ -446,6 +446,7 @@ def plan(tier, seed):
     windows = window_cases(tier)
     others = [dict(kind='ligand', name=n, ctx=c) for n in gen.TEMPLATES for c in ('alone', 'peptide')]
     others += [dict(kind='ion', name=n, ctx=c) for n in gen.IONS for c in ('alone', 'peptide')]
+    others += [dict(kind='ion', name=n, ctx='peptide', rec='ATOM  ') for n in gen.IONS]      # ions written as ATOM records (simulation packages)
     others += [dict(kind='dna', res=r, n=nn, ctx=c) for (r, nn) in sorted(DNA_CUSTOM) if nn.startswith('N') for c in ('alone', 'peptide')]
     others += [dict(kind='whole', key=k, chains=None) for k in (['3SGB', '1HPX'] if tier == 'quick' else list(gen.PROTEINS))]
     others += [dict(kind='whole', key='3SGB', chains=['E']), dict(kind='whole', key='3SGB', chains=['I']),
@@ -542,6 +543,8 @@ def run_case(case, ctx, acc):
             ions = {}
         else:
             s = gen.ion(name, 'M', 901, at=(10000, 10000, 10000))
+            for a in s.atoms:
+                a.rec = case.get('rec', 'HETATM')
             types, ions = {}, {name: gen.IONS[name]}
         items = s.items
         if case['ctx'] == 'peptide':
